@@ -58,7 +58,7 @@ def checkLine (line : String) : String × String × Verdict :=
         | "fac" => checkFactor op args r
         | "zp" => checkZp op args r
         | "ugcd" => checkUGcd op args r
-        | "refs" => if op = "vdb" then checkVdb args r else if op = "vlist" then checkVlist args r else checkRefs args r
+        | "refs" => if op = "vdb" then checkVdb args r else if op = "vlist" ∨ op = "asg" then checkVlist op args r else checkRefs args r
         | _ => Verdict.skip s!"unknown family {fam}"
       (idx, fam, v)
     | _ => ("?", "?", .skip "short line")
